@@ -214,7 +214,7 @@ def worker(args):
 def correspondence(res):
     from props import c02
     W = 14
-    n = 210 if res.tier == "quick" else 1700
+    n = 210 if res.tier == "quick" else 840
     terms, infos = c02.parallel(res, worker, [(res.seed * 100 + w, max(1, n // W)) for w in range(W)])
     res.sample(infos[0])
     corr = common.run_case_codes("C12", "corr", HEADER, terms, "c12_corr", chunk=40, ctype=CT)
